@@ -47,6 +47,14 @@ class Net:
         if srv is not None:        # a server double (a real ioflo Server subclass) listens here
             self.nextport = getattr(self, "nextport", 50000) + 1
             ca = ("10.9.9.9", self.nextport)
+            if getattr(self, "relayed", False):
+                # a wire in between: what either side sends waits in the relay until `move_*` lets (part of) it through
+                a2, b2 = socket.socketpair()
+                for x in (a2, b2):
+                    x.setblocking(False)
+                self.links = getattr(self, "links", [])
+                self.links.append({"cside": b, "sside": a2, "c2s": bytearray(), "s2c": bytearray()})
+                b = b2
             srv.pending.append((SockDouble(b, peer=ca, name=(ip, port), tap=self.tap if hasattr(self, "tap") else None), ca))
             self.log.append(("CONNECT", len(self.conns), ip, port, tls))
             self.conns.append({"id": len(self.conns), "ip": ip, "port": port, "tls": tls, "sock": None, "buf": bytearray(),
@@ -85,6 +93,36 @@ class Net:
                 self.log.append(("CLOSE", c["id"]))
             out.append((c, closed))
         return out
+
+    @staticmethod
+    def _drain(sock, buf):
+        while True:
+            try:
+                d = sock.recv(65536)
+            except (BlockingIOError, InterruptedError):
+                return
+            except OSError:
+                return
+            if not d:
+                return
+            buf.extend(d)
+
+    def move(self, direction, quota=None):
+        """relayed wires only: let up to `quota` bytes (None = all) of what has been sent in `direction`
+        ('c2s' or 's2c') through to the receiver"""
+        for l in getattr(self, "links", []):
+            src, dst, buf = (l["cside"], l["sside"], l["c2s"]) if direction == "c2s" else (l["sside"], l["cside"], l["s2c"])
+            before = len(buf)
+            self._drain(src, buf)
+            if direction == "s2c" and hasattr(self, "wiretap") and len(buf) > before:
+                self.wiretap(bytes(buf[before:]))
+            n = len(buf) if quota is None or quota < 0 else min(quota, len(buf))
+            if n:
+                try:
+                    dst.sendall(bytes(buf[:n]))
+                except OSError:
+                    pass
+                del buf[:n]
 
     def send(self, conn, data):
         if conn["open"] and data:
